@@ -6,6 +6,7 @@ import CookModel.Driver.Aisle
 import CookModel.Driver.Group
 import CookModel.Driver.StdMeta
 import CookModel.Driver.Ffi
+import CookModel.Driver.FfiEntry
 import CookModel.Driver.Serde
 import CookModel.Driver.Builder
 import CookModel.Driver.Tie
@@ -22,6 +23,7 @@ def handlers : List (List String → Option String) := [
   handleGroup,
   handleStdMeta,
   handleFfi,
+  handleFfiEntry,
   handleSerde,
   handleBuilder,
   handleTie,
